@@ -16,7 +16,8 @@ def sh(cmd, cwd, timeout=1800):
     r = subprocess.run(cmd, cwd=cwd, env=ENV, shell=True, capture_output=True, text=True, timeout=timeout)
     return r.returncode, (r.stdout + r.stderr)
 txt = open(demo).read()
-m = re.search(r"teamserver/[\w/]+", txt.split("package")[0])
+hdr = re.split(r"^package\s", txt, maxsplit=1, flags=re.M)[0]
+m = re.search(r"teamserver/[\w/]+", hdr)
 pkgdir = m.group(0) if m else None
 if not pkgdir:
     print("cannot find package dir in demo header"); sys.exit(2)
